@@ -77,8 +77,12 @@ class PromptPdu(AbstractFileDirectiveBase):
         prompt_pdu.pdu_file_directive = FileDirectivePduBase.unpack(raw_packet=data)
         prompt_pdu.pdu_file_directive.verify_length_and_checksum(data)
         current_idx = prompt_pdu.pdu_file_directive.header_len
-        if current_idx >= len(data):
-            raise BytesTooShortError(current_idx, len(data))
+        # Only look at the PDU itself, without the CRC trailer and without trailing data.
+        end_of_params = prompt_pdu.packet_len
+        if prompt_pdu.pdu_file_directive.pdu_conf.crc_flag == CrcFlag.WITH_CRC:
+            end_of_params -= 2
+        if current_idx >= end_of_params:
+            raise BytesTooShortError(current_idx + 1, end_of_params)
         prompt_pdu.response_required = ResponseRequired((data[current_idx] & 0x80) >> 7)
         return prompt_pdu
 
